@@ -121,3 +121,27 @@ contract("codemodder.codemods.base_codemod.BaseCodemod._apply", props=["C11", "C
                  [(f"results are merged under this codemod's own id only ({f})",
                    f"all(implies(q != self.id, lookup(context.{f}, q, typed_empty('{t}')) == lookup(old(context.{f}), q, typed_empty('{t}'))) for q in ANY('str'))")
                   for f, t in _AGGS])
+
+# ---- the two implementations of get_files_to_analyze (C05): which files a codemod hands to its worker pool ---------------------------------
+REG.opaque_attrs.update({"suffix": "str"})
+contract("codemodder.codemods.base_codemod.FindAndFixCodemod.get_files_to_analyze", props=["C05"],
+         params={"self": "BaseCodemod", "context": "CodemodExecutionContext", "results": "ResultSet | None"}, returns="list[Opaque]",
+         ensures=[("only files selected by the include/exclude patterns (context.find_and_fix_paths) are handed on",
+                   "all(p in context.find_and_fix_paths for p in result)"),
+                  ("every selected file with one of the codemod's extensions is handed on (all of them when the codemod declares no extensions)",
+                   "all(implies(p in context.find_and_fix_paths and (not self.default_extensions or p.suffix in self.default_extensions), p in result)"
+                   " for p in ANY('Opaque'))"),
+                  ("a file with another extension is not handed on",
+                   "all(implies(p in result and bool(self.default_extensions), p.suffix in self.default_extensions) for p in ANY('Opaque'))")])
+REG.record("codemodder.codemods.base_codemod.RemediationCodemod", kind="ref", fields={"requested_rules": "list[str]"},
+       bases=["codemodder.codemods.base_codemod.BaseCodemod"])
+external("codemodder.context.CodemodExecutionContext.filter_paths", params={"self": "CodemodExecutionContext", "paths": "list[Opaque]"}, returns="list[Opaque]",
+         functional=True, reads=["path_include", "path_exclude"],
+         ensures=["all(implies(p in result, p in paths) for p in ANY('Opaque'))"],
+         note="match_files(directory, paths, path_exclude, included paths): selects among the given paths (match_files: bounded stand-in in C05)")
+_HAS = "any(len(results.results_for_rule_and_file(context, rule_id, p)) > 0 for rule_id in self.requested_rules)"
+contract("codemodder.codemods.base_codemod.RemediationCodemod.get_files_to_analyze", props=["C05", "C06"],
+         params={"self": "RemediationCodemod", "context": "CodemodExecutionContext", "results": "ResultSet | None"}, returns="list[Opaque]",
+         ensures=[("no results => no file is processed", "implies(results is None, len(result) == 0)"),
+                  ("only files of the target that carry a finding of one of the requested rules (and have one of the codemod's extensions) are handed on",
+                   "all(implies(p in result, p in context.files_to_analyze and p.suffix in (self.default_extensions or []) and " + _HAS + ") for p in ANY('Opaque'))")])
